@@ -22,7 +22,12 @@ QUANTUM = 1e-12          # residuals of constructor-level scales are reported in
 RCLIP = 10 ** 9
 
 # the physical problem (SI); the mesh is dimensionless and shared
-PHYS = dict(XI=0.8e-6, LAM=1.6e-6, D=1.0e-7, SIG=2.5e6, B=4.0e-4, I=3.0e-6)
+PHYS = dict(XI=0.8e-6, LAM=1.6e-6, D=1.0e-7, SIG=2.5e6, B=4.0e-4, I=3.0e-6, Z0=0.6e-6)
+# the LIFTED variants of the device lie in the plane z = Z0 (Layer.z0 is 0 by default: a dimension of its own); there the applied field
+# depends on the height, B(z) = B (1 + z / ZC), so that the height the solver hands to the applied potential matters: B(Z0) = 1.5 B
+Z0_UM = 0.6
+ZC_UM = 1.2
+Z0_FORMS = ("layer", "translate", "translate-inplace", "layer-edit")
 # literal SI values (CODATA 2018/2022; h and e are exact by definition of the SI): the ABSOLUTE reference of every scale.
 # Nothing here is read from tdgl / pint: a constant that is wrong inside the package must not cancel out of the comparison.
 H_PLANCK = 6.62607015e-34
@@ -37,14 +42,15 @@ def unit_names(u):
     return LEN[u[0]], FLD[u[1]], CUR[u[2]]
 
 
-def _build(tdgl, kind, s, length_units, probes=True, wrong=None):
-    """The device with every length multiplied by s (s = 1 um expressed in length_units)."""
+def _build(tdgl, kind, s, length_units, probes=True, wrong=None, z0_um=0.0):
+    """The device with every length multiplied by s (s = 1 um expressed in length_units); z0_um: height of the film plane."""
     from tdgl.geometry import box, circle
 
     g = GEOM
     f = wrong or {}          # (history) factors by which the parameters are first stated WRONGLY, to be corrected in place later
     layer = tdgl.Layer(coherence_length=PHYS["XI"] * 1e6 * s * f.get("xi", 1.0), london_lambda=PHYS["LAM"] * 1e6 * s * f.get("lam", 1.0),
-                       thickness=PHYS["D"] * 1e6 * s * f.get("d", 1.0), conductivity=PHYS["SIG"] * 1e-6 / s, gamma=10.0)
+                       thickness=PHYS["D"] * 1e6 * s * f.get("d", 1.0), conductivity=PHYS["SIG"] * 1e-6 / s, gamma=10.0,
+                       **({"z0": z0_um * s * f.get("z0", 1.0)} if z0_um else {}))
     W, H = g["W"] * s, g["H"] * s
     film = tdgl.Polygon("film", points=box(W, H, points=48))
     holes = []
@@ -97,6 +103,123 @@ def edited_device(tdgl, kind, u, prior_solver=False):
     dev.layer.thickness = PHYS["D"] * 1e6 * s
     dev.mesh = base.mesh
     return dev, pre
+
+
+def lifted_device(tdgl, kind, u, form):
+    """The same physical device with its film in the plane z = Z0_UM micrometres, on the shared dimensionless mesh.  The height reaches
+    the package as: 'layer' Layer(z0=...); 'translate' Device.translate(dz=...) of the flat device (a new device, meshed afterwards);
+    'translate-inplace' Device.translate(dz=..., inplace=True) of the flat, meshed device; 'layer-edit' stated wrongly (3 x) in the
+    Layer and corrected by attribute assignment.  Always a NEW device object (the flat base device is never touched)."""
+    base = base_device(tdgl, kind)
+    s = 10.0 ** (-6 - u[0])
+    if form == "layer":
+        dev = _build(tdgl, kind, s, LEN[u[0]], z0_um=Z0_UM)
+        dev.mesh = base.mesh
+    elif form == "translate":
+        dev = _build(tdgl, kind, s, LEN[u[0]]).translate(dz=Z0_UM * s)
+        dev.mesh = base.mesh
+    elif form == "translate-inplace":
+        dev = _build(tdgl, kind, s, LEN[u[0]])
+        dev.mesh = base.mesh
+        if dev.translate(dz=Z0_UM * s, inplace=True) not in (None, dev):
+            raise RuntimeError("translate(inplace=True) returned another device")
+    elif form == "layer-edit":
+        dev = _build(tdgl, kind, s, LEN[u[0]], z0_um=Z0_UM, wrong=dict(z0=3.0))
+        dev.mesh = base.mesh
+        dev.layer.z0 = Z0_UM * s
+    else:
+        raise ValueError(form)
+    return dev
+
+
+def height_dependent_field(x, y, z, *, B0, zc):
+    """The harness' own applied vector potential A = B(z) / 2 (-y, x, 0) with B(z) = B0 (1 + z / zc): numbers in field_units *
+    length_units for positions in length_units (B0 in field_units, zc in length_units).  Symmetric gauge about the origin."""
+    import numpy as np
+
+    x, y = np.asarray(x, dtype=float), np.asarray(y, dtype=float)
+    Bz = B0 * (1.0 + np.asarray(z, dtype=float) * np.ones_like(x) / zc)
+    return np.stack([-Bz * y / 2, Bz * x / 2, np.zeros_like(x)], axis=1)
+
+
+def si_sums(np, sites, areas, z0_um, Ks, Kn, pos_um, B_of_z=None):
+    """The fields and potentials of sheet currents Ks, Kn [A/m] at the sites XI * sites in the plane z = z0_um, evaluated at pos_um
+    (micrometres), written out in SI with LITERAL XI and mu_0 (docstrings of biot_savart_2d and vector_potential_at_position):
+        B(r) = mu_0 / (4 pi) sum_k a_k K_k x (r - r_k) / |r - r_k|^3,      A(r) = mu_0 / (4 pi) sum_k a_k K_k / |r - r_k|.
+    -> {key: flat list}, the keys of run_twin's `fields`.  Nothing here comes from the package except the currents themselves."""
+    r = np.asarray(sites, dtype=float) * PHYS["XI"]
+    a = np.asarray(areas, dtype=float) * PHYS["XI"] ** 2
+    ev = np.asarray(pos_um, dtype=float) * 1e-6
+    dx = ev[:, None, 0] - r[None, :, 0]
+    dy = ev[:, None, 1] - r[None, :, 1]
+    dz = (ev[:, 2] - z0_um * 1e-6)[:, None] * np.ones_like(dx)
+    R = np.sqrt(dx * dx + dy * dy + dz * dz)
+    pref = MU0_SI / (4 * math.pi) * a[None, :]
+
+    def B(K):
+        w = pref / R ** 3
+        return np.stack([np.sum(w * K[None, :, 1] * dz, axis=1), -np.sum(w * K[None, :, 0] * dz, axis=1),
+                         np.sum(w * (K[None, :, 0] * dy - K[None, :, 1] * dx), axis=1)], axis=1)
+
+    def A(K):
+        w = pref / R
+        return np.stack([np.sum(w * K[None, :, 0], axis=1), np.sum(w * K[None, :, 1], axis=1), np.zeros(len(ev))], axis=1)
+
+    Ks, Kn = np.asarray(Ks, dtype=float), np.asarray(Kn, dtype=float)
+    fl = lambda v: np.asarray(v, dtype=float).reshape(-1).tolist()
+    out = {"Bz_total[T]": fl(B(Ks + Kn)[:, 2]), "Bvec_total[T]": fl(B(Ks + Kn)), "Bz_super[T]": fl(B(Ks)[:, 2]), "Bvec_normal[T]": fl(B(Kn)),
+           "A_super[T*m]": fl(A(Ks)), "A_normal[T*m]": fl(A(Kn))}
+    if B_of_z is not None:          # the applied potential is the harness' own function: A = B(z) / 2 (-y, x, 0)
+        Bz = B_of_z(ev[:, 2])
+        ap = np.stack([-Bz * ev[:, 1] / 2, Bz * ev[:, 0] / 2, np.zeros(len(ev))], axis=1)
+        out["A_applied[T*m]"] = fl(ap)
+        out["A_total[T*m]"] = fl(ap + A(Ks) + A(Kn))
+    return out
+
+
+def observe_sheet(tdgl, args, tmp):
+    """Constructor level, lifted device in unit system u (the height given in form args['form']):
+    SolverZ — the z the REAL TDGLSolver hands to the applied vector potential together with the edge centres (recorded by the harness'
+              own potential function, which sees exactly what the solver passes);
+    SheetZ  — the height at which the public tdgl.em.biot_savart_2d places a current sheet 'located at vertical position z0 (in units
+              of length_units)': one current element K = (Kx, 0) of area a at the origin of the plane z = z0, field evaluated at the
+              origin of the plane z = 0: |B_y| = mu_0 / (4 pi) a Kx / h^2 exactly, so h = sqrt(mu_0 a Kx / (4 pi |B_y|)) in metres.
+              The area and the current density are the mesh-cell area XI^2 and K0-sized numbers stated in the unit system."""
+    import numpy as np
+    from tdgl.em import biot_savart_2d
+
+    u = args["u"]
+    form = args.get("form", "layer")
+    ln, fu, cu = unit_names(u)
+    dev = lifted_device(tdgl, args.get("kind", "bar"), u, form)
+    nums = numbers(u)
+    s = 10.0 ** (-6 - u[0])
+    seen = []
+
+    def recording(x, y, z, *, B0, zc):
+        seen.append(np.asarray(z, dtype=float) * np.ones_like(np.asarray(x, dtype=float)))
+        return height_dependent_field(x, y, z, B0=B0, zc=zc)
+
+    opt = tdgl.SolverOptions(solve_time=1.0, field_units=fu, current_units=cu, output_file=os.path.join(tempfile.mkdtemp(dir=tmp), "o.h5"))
+    tdgl.TDGLSolver(dev, opt, applied_vector_potential=tdgl.Parameter(recording, B0=nums["B"], zc=ZC_UM * s),
+                    terminal_currents={"source": nums["I"], "drain": -nums["I"]})
+    if not seen:
+        raise RuntimeError("the solver never evaluated the applied vector potential")
+    zs = np.concatenate([np.atleast_1d(v).reshape(-1) for v in seen])
+    obs = {"SolverZ": float(zs.mean()), "SolverZ_spread": float(np.ptp(zs) / (Z0_UM * s)), "n_calls": len(seen)}
+    # the public Biot-Savart function, with the height the DEVICE reports for its layer (what Solution.field_at_position passes on) and
+    # with the height the harness typed: both must be the plane z = Z0
+    a_num = (PHYS["XI"] * 1e6 * s) ** 2                   # area of one cell, in length_units ** 2
+    k_num = 1.0e-2 / 10.0 ** (u[2] - u[0])                # 1e-2 A/m in current_units / length_units
+    heights = {}
+    for who, z0_num in (("typed", Z0_UM * s), ("device", float(dev.layer.z0))):
+        Bv = biot_savart_2d(0.0, 0.0, 0.0, positions=np.array([[0.0, 0.0]]), current_densities=np.array([[k_num, 0.0]]), z0=z0_num,
+                            areas=np.array([a_num]), length_units=ln, current_units=cu, vector=True)
+        By = abs(float(np.asarray(Bv.to("tesla").magnitude).reshape(-1)[1]))
+        heights[who] = math.sqrt(MU0_SI / (4 * math.pi) * PHYS["XI"] ** 2 * 1.0e-2 / By) if By > 0 else float("inf")
+    obs["SheetZ"] = heights["device"]
+    obs["SheetZ_typed"] = heights["typed"]
+    return {"u": u, "form": form, "obs": obs}
 
 
 def numbers(u):
@@ -214,7 +337,13 @@ def run_twin(tdgl, args, tmp):
     u = args["u"]
     ln, fu, cu = unit_names(u)
     kind = args.get("kind", "bar")
-    dev = edited_device(tdgl, kind, u)[0] if args.get("layer_edit") else twin_device(tdgl, kind, u)
+    z0form = args.get("z0form")          # the film lies in the plane z = Z0_UM (given to the package in this form); None: z = 0
+    flat_equiv = bool(args.get("flat_equiv"))   # the equivalent problem in the plane z = 0: uniform field B(Z0), outputs Z0 lower
+    if z0form:
+        dev = lifted_device(tdgl, kind, u, z0form)
+    else:
+        dev = edited_device(tdgl, kind, u)[0] if args.get("layer_edit") else twin_device(tdgl, kind, u)
+    z0_um = Z0_UM if z0form else 0.0
     nums = numbers(u)
     work = tempfile.mkdtemp(prefix="units", dir=tmp)
     opt = tdgl.SolverOptions(solve_time=args["solve_time"], dt_init=args["dt"], dt_max=args.get("dt_max", 0.1), adaptive=args.get("adaptive", False),
@@ -226,6 +355,13 @@ def run_twin(tdgl, args, tmp):
     drive = dict(applied_vector_potential=nums["B"] * args.get("Bfactor", 1.0), terminal_currents={"source": cur, "drain": -cur})
     if args.get("epsilon"):
         drive["disorder_epsilon"] = make_epsilon(10.0 ** (-6 - u[0]), args["epsilon"])
+    B_of_z = None
+    if z0form:
+        drive["applied_vector_potential"] = tdgl.Parameter(height_dependent_field, B0=nums["B"] * args.get("Bfactor", 1.0),
+                                                           zc=ZC_UM * 10.0 ** (-6 - u[0]))
+        B_of_z = lambda z_m: PHYS["B"] * args.get("Bfactor", 1.0) * (1.0 + z_m / (ZC_UM * 1e-6))
+    elif flat_equiv:
+        drive["applied_vector_potential"] = nums["B"] * args.get("Bfactor", 1.0) * (1.0 + Z0_UM / ZC_UM)
     try:
         sol = tdgl.solve(dev, opt, **drive)
     except Exception as e:        # recorded: whether a run raises must not depend on the unit system
@@ -269,8 +405,10 @@ def run_twin(tdgl, args, tmp):
         phys[str(frames[n]["step"])] = np.asarray(K).reshape(-1).tolist()
     # fields and potentials from the currents, at fixed PHYSICAL points, in fixed physical units (tesla, tesla * metre)
     s_len = 10.0 ** (-6 - u[0])                 # one micrometre in length_units
-    pos = np.array(FIELD_POINTS_UM) * s_len
-    fields = {}
+    pos_um = np.array(FIELD_POINTS_UM) - (np.array([[0.0, 0.0, Z0_UM]]) if flat_equiv else 0.0)
+    pos = pos_um * s_len
+    fields, fields_ref, fields_ref_flat = {}, {}, {}
+    base_mesh = base_device(tdgl, kind).mesh          # the shared dimensionless mesh the harness handed to every twin
     for n in sorted({len(frames) // 2, len(frames) - 1}):
         sol.solve_step = n
         st = str(frames[n]["step"])
@@ -290,7 +428,18 @@ def run_twin(tdgl, args, tmp):
             "Bvec_total[T] via units=": np.asarray(sol.field_at_position(pos, vector=True, units="T", with_units=False)).reshape(-1).tolist(),
             "A_total[T*m] via units=": np.asarray(sol.vector_potential_at_position(pos, units="T * m", with_units=False)).reshape(-1).tolist(),
         }
-    res = {"u": u, "frames": frames, "K_A_per_m": phys, "fields": fields, "nsites": len(dev.mesh.sites)}
+        if flat_equiv:       # another applied potential by construction: only what the currents produce is comparable
+            fields[st] = {k_: v_ for k_, v_ in fields[st].items() if not k_.startswith(("A_total", "A_applied"))}
+        # the same from the sheet currents by the harness' own SI sums (sheet in the plane the harness asked for)
+        Ks = np.asarray(sol.supercurrent_density.to("A / m").magnitude, dtype=float)
+        Kn = np.asarray(sol.normal_current_density.to("A / m").magnitude, dtype=float)
+        fields_ref[st] = si_sums(np, base_mesh.sites, base_mesh.areas, z0_um, Ks, Kn, pos_um, B_of_z)
+        if z0form:           # (vacuity guard of the caller: the observation points are sensitive to the height of the sheet)
+            fields_ref_flat[st] = si_sums(np, base_mesh.sites, base_mesh.areas, 0.0, Ks, Kn, pos_um, B_of_z)
+    res = {"u": u, "frames": frames, "K_A_per_m": phys, "fields": fields, "fields_ref": fields_ref, "nsites": len(dev.mesh.sites),
+           "z0_um": z0_um, "z0form": z0form, "mesh_area_um2": float(np.sum(base_mesh.areas)) * (PHYS["XI"] * 1e6) ** 2}
+    if z0form:
+        res["fields_ref_flat"] = fields_ref_flat
     if args.get("post"):
         sol.solve_step = len(frames) - 1
         res["post"], res["post_outcomes"] = post_processing(sol, u, np, args.get("variant", 0))
